@@ -230,9 +230,25 @@ func compare(k *mon.Case, s *spend, family, flagClass, mutation string) *result 
 	if (err == nil) != refOK {
 		at := "end"
 		if res.refErr != "" && res.tr.LastOp >= 0 {
-			at = "op" + opNames[res.tr.LastOp]
+			switch res.tr.LastOp {
+			case rs.OP_CHECKSIG, rs.OP_CHECKSIGVERIFY:
+				at = "checksig"
+			case rs.OP_CHECKMULTISIG, rs.OP_CHECKMULTISIGVERIFY:
+				at = "multisig"
+			case rs.OP_CHECKSIGADD:
+				at = "checksigadd"
+			default:
+				at = "op" + opNames[res.tr.LastOp]
+			}
 		}
-		key := fmt.Sprintf("verdict:%s:%s:ref=%s@%s:btcd=%s", flagClass, res.tr.Path, orOK(res.refErr), at, errClass(err))
+		// keys name WHAT disagrees: flag-set class, script generation (legacy / v0 / taproot sub-path),
+		// the reference's verdict and where it arose, btcd's error class, and oracle-side observations
+		// about the signature operands involved.
+		be := errClass(err)
+		if res.tr.ValidNonDER && err != nil {
+			be = "reject" // the rejected signature check surfaces wherever its result is consumed
+		}
+		key := fmt.Sprintf("verdict:%s:%s:ref=%s@%s:btcd=%s", flagClass, pathGroup(res.tr.Path), orOK(res.refErr), at, be)
 		if res.tr.ValidNonDER {
 			key += ":valid-sig-not-strict-DER"
 		}
@@ -281,6 +297,21 @@ func compare(k *mon.Case, s *spend, family, flagClass, mutation string) *result 
 	boundary(c, "elem", res.tr.MaxElem, rs.MaxScriptElementSize)
 	boundary(c, "scriptsize", res.tr.MaxScript, rs.MaxScriptSize)
 	return res
+}
+
+// pathGroup folds the reference's evaluation path into the script generation it belongs to.
+func pathGroup(p string) string {
+	switch {
+	case p == "bare" || p == "p2sh":
+		return "legacy"
+	case strings.Contains(p, "p2wsh") || strings.Contains(p, "p2wpkh"):
+		return "v0"
+	case p == "native-p2tr-script":
+		return "tapscript"
+	case p == "":
+		return "none"
+	}
+	return strings.TrimPrefix(p, "native-")
 }
 
 func boundary(c *mon.Ctx, name string, v, limit int) {
